@@ -40,6 +40,8 @@ type Engine struct {
 	Cfg        Config
 	Prefixes   []string // import-path prefixes of interpreted packages
 	Intrinsics map[string]func(st *State, caller *frame, args []Value) Value
+	// FaultSites: full names of functions at whose entry a symbolic fault flag may raise a panic (C19)
+	FaultSites map[string]bool
 	LoadTime   time.Duration
 }
 
